@@ -221,9 +221,20 @@ func init() {
 			if c := c18Rehearse(ds, nil, nil); c >= 0 {
 				return cycleResult("final lookups", c)
 			}
-			sr := checkSR("final")
-			sets := ds.Sets()
-			roots := ds.Roots()
+			// mode "sf": the views are taken in the order Roots, Sets, SmallestRep on the un-flattened structure
+			// (SmallestRep and Sets call Find on everything, so whichever runs first sees the deep trees)
+			var sr []int
+			var sets [][]int
+			var roots []int
+			if args[0] == "sf" {
+				roots = ds.Roots()
+				sets = ds.Sets()
+				sr = checkSR("final")
+			} else {
+				sr = checkSR("final")
+				sets = ds.Sets()
+				roots = ds.Roots()
+			}
 			// Sets: sorted, ordered by least element, partition consistent with lab
 			seen := make([]bool, n)
 			prevMin := -1
@@ -294,6 +305,9 @@ func init() {
 					n = 20 + r.Intn(180)
 					mode = "end"
 					nops = n + r.Intn(3*n)
+				}
+				if mode == "all" && r.Intn(3) == 0 {
+					mode = "sf" // no lookups between the ops: Sets/Roots run on deep, uncompressed trees
 				}
 				var b strings.Builder
 				fmt.Fprintf(&b, "ds %s %d", mode, n)
